@@ -139,6 +139,32 @@ def value_attr(interp, obj, name):
         r = builtin_type_attr(interp, obj, name)
         if r is not NOT_IMPLEMENTED:
             return r
+    # an attribute that exists on the real Python type but has no model here is NOT an AttributeError of the program: the
+    # obligation is undecided (a harmless refactoring that uses another builtin method must never look like a violation)
+    import collections as _c
+    real = None
+    if isinstance(obj, BytesV):
+        real = bytearray if obj.kind == "bytearray" else bytes
+    elif isinstance(obj, PyList):
+        real = list
+    elif isinstance(obj, PyDict):
+        real = dict
+    elif isinstance(obj, PyDeque):
+        real = _c.deque
+    elif isinstance(obj, PySet):
+        real = set
+    elif isinstance(obj, (str, StrV, FStrV)):
+        real = str
+    elif isinstance(obj, (bool, SBool)):
+        real = bool
+    elif is_intlike(obj):
+        real = int
+    elif isinstance(obj, tuple):
+        real = tuple
+    elif isinstance(obj, (float, SReal)):
+        real = float
+    if real is not None and hasattr(real, name):
+        raise Unsupported(f"{real.__name__}.{name} is not modelled")
     interp.throw("AttributeError", f"{bm.type_name(interp, obj)} object has no attribute '{name}'")
 
 
